@@ -43,41 +43,56 @@ def blacklist (s : State) : Bool :=
 
 def spPassword : Bytes := bs "sp_password"
 
+/-- fingerprint `1c`, at most two tokens emitted: is the number followed by white space, `/*` or `--`?
+(reads `input[tv[0].len]`, `input[tv[0].len+1]`) -/
+def wlNumComment (s : State) (t0 : Token) : M Bool := do
+  if s.toks > 2 then return true
+  let ch ← at' s.input t0.len
+  if ch ≤ 32 then return true
+  if ← (g (ch == 47) <&&> byteIs s.input (t0.len + 1) 42) then return true
+  if ← (g (ch == 45) <&&> byteIs s.input (t0.len + 1) 45) then return true
+  return false
+
+/-- `notWhitelist`, fingerprints of length 2 -/
+def wlTwo (s : State) (fp : Bytes) : M Bool := do
+  let t0 ← tvGet s 0
+  let t1 ← tvGet s 1
+  if fp[1]? == some 85 then return s.toks != 2
+  let v0 ← at' t1.val 0
+  if v0 == 35 then return false
+  if t0.cat == 110 && t1.cat == 99 && v0 != 47 then return false
+  if t0.cat == 49 && t1.cat == 99 && v0 != 47 then return true
+  if t0.cat == 49 && t1.cat == 99 then wlNumComment s t0
+  else
+    if t1.len > 2 && v0 == 45 then return false
+    return true
+
+/-- a keyword in the middle of a three-class fingerprint counts only if it is `INTO …` (reads `val[:4]`) -/
+def wlInto (t1 : Token) : M Bool := do
+  if t1.cat == 107 then
+    if t1.len < 5 then return false
+    if !toUpperCmp (bs "INTO") (← slice t1.val 0 4) then return false
+  return true
+
+/-- `notWhitelist`, fingerprints of length 3 -/
+def wlThree (s : State) (fp : Bytes) : M Bool := do
+  let t0 ← tvGet s 0
+  let t1 ← tvGet s 1
+  let t2 ← tvGet s 2
+  if fp == bs "sos" || fp == bs "s&s" then
+    if t0.strOpen == 0 && t2.strClose == 0 && t0.strClose == t2.strOpen then return true
+    return false
+  if fp == bs "s&n" || fp == bs "n&1" || fp == bs "1&1" || fp == bs "1&v" || fp == bs "1&s" then
+    if s.toks == 3 then return false
+  wlInto t1
+
 def notWhitelist (s : State) : M Bool := do
   let fp := s.fingerprint
   let length := fp.length
   if length > 1 && fp[length - 1]? == some 99 then
     if contains s.input spPassword then return true
-  if length == 2 then
-    let t0 ← tvGet s 0
-    let t1 ← tvGet s 1
-    if fp[1]? == some 85 then return s.toks != 2
-    let v0 ← at' t1.val 0
-    if v0 == 35 then return false
-    if t0.cat == 110 && t1.cat == 99 && v0 != 47 then return false
-    if t0.cat == 49 && t1.cat == 99 && v0 != 47 then return true
-    if t0.cat == 49 && t1.cat == 99 then
-      if s.toks > 2 then return true
-      let ch ← at' s.input t0.len
-      if ch ≤ 32 then return true
-      if ← (g (ch == 47) <&&> byteIs s.input (t0.len + 1) 42) then return true
-      if ← (g (ch == 45) <&&> byteIs s.input (t0.len + 1) 45) then return true
-      return false
-    if t1.len > 2 && v0 == 45 then return false
-    return true
-  else if length == 3 then
-    let t0 ← tvGet s 0
-    let t1 ← tvGet s 1
-    let t2 ← tvGet s 2
-    if fp == bs "sos" || fp == bs "s&s" then
-      if t0.strOpen == 0 && t2.strClose == 0 && t0.strClose == t2.strOpen then return true
-      return false
-    if fp == bs "s&n" || fp == bs "n&1" || fp == bs "1&1" || fp == bs "1&v" || fp == bs "1&s" then
-      if s.toks == 3 then return false
-    if t1.cat == 107 then
-      if t1.len < 5 then return false
-      if !toUpperCmp (bs "INTO") (← slice t1.val 0 4) then return false
-    return true
+  if length == 2 then wlTwo s fp
+  else if length == 3 then wlThree s fp
   else return true
 
 def checkFingerprint (s : State) : M Bool := do
